@@ -179,6 +179,19 @@ pub fn profile_cfg(profile: &str, content: &mut Rng) -> RunCfg {
             c.f_rpc_delay = 300;
             c.log = false;
         }
+        "sweepbase" => {
+            // Fault-free base scenarios for the systematic sweep (DESIGN.md 4.7).
+            c.n_hashes = 1;
+            c.max_sets = 1 + content.below(2) as u32;
+            c.max_parts = *content.pick(&[1u32, 2, 3]);
+            c.f_part_fail = 350;
+            c.f_pay_bad_outcome = 250;
+            c.f_underfund = 150;
+            c.f_rpc_reorder = 100;
+            c.mpp_timeout = *content.pick(&[7u64, 60]);
+            c.max_ops = 60;
+            c.log = false;
+        }
         "e2watch" => {
             c.mode = "watcher".into();
             c.max_sets = 0;
@@ -303,6 +316,14 @@ impl RandomSched {
             freeze_decided: false,
             marked: false,
         }
+    }
+
+    /// A scheduler that starts directly in the fault-free end phase (used as
+    /// the tail of sweep runs).
+    pub fn new_tail(seed: u64, probe: bool) -> Self {
+        let mut s = Self::new(seed, probe);
+        s.phase = Phase::Quiesce;
+        s
     }
 
     fn frozen(&self, sim: &Sim, hash_ix: u8) -> bool {
@@ -1052,5 +1073,22 @@ impl Scheduler for WatcherSched {
             }
             _ => None,
         }
+    }
+}
+
+/// Plays a fixed prefix, then hands over to a fault-free quiesce (+ probe) tail.
+pub struct SweepSched {
+    pub prefix: Vec<Op>,
+    pub pos: usize,
+    pub tail: RandomSched,
+}
+
+impl Scheduler for SweepSched {
+    fn next(&mut self, sim: &Sim) -> Option<Op> {
+        if self.pos < self.prefix.len() {
+            self.pos += 1;
+            return Some(self.prefix[self.pos - 1].clone());
+        }
+        self.tail.next(sim)
     }
 }
